@@ -329,7 +329,8 @@ def _run(case, out, w):
                     out.label("reordered_delivery")
                 where = op[3] if len(op) > 3 else None
                 if where is not None:
-                    out.label("corrupted_at=" + ("cut" if isinstance(where, list) else "head" if 0 <= where < 8 else "tail" if where < 0 else "body"))
+                    out.label("corrupted_at=" + (("version_byte_pattern" if where[1] == 0 else "pattern") if isinstance(where, list) and where[0] == "xor" else
+                                                 "cut" if isinstance(where, list) else "head" if 0 <= where < 8 else "tail" if where < 0 else "body"))
                 moved0 = CORRUPTION_MOVED[0]
                 server.step(clients, k, mutate=lambda n, _b=op[2] if len(op) > 2 else 0, _w=where: corrupt(n, _b, _w))
                 if CORRUPTION_MOVED[0] != moved0:
@@ -602,8 +603,13 @@ def corrupt(node, which, where=None):
     for c in node.getAllChildren():
         if c is target:
             d = bytearray(c.data)
+            mask = 0x5A
             if where is None:
                 pos = len(d) // 2
+            elif isinstance(where, list) and where[0] == "xor":
+                # a chosen bit pattern at a chosen position (the fixed pattern turns every version byte into an unknown *newer* version)
+                pos = where[1] % len(d)
+                mask = (where[2] % 255) + 1
             elif isinstance(where, list):
                 pos = None
                 d = d[:max(1, min(len(d) - 1, where[1]))]
@@ -616,7 +622,7 @@ def corrupt(node, which, where=None):
                     # identity, which the recipient refuses or pins by design (C17) - the damage is moved into the ciphertext
                     pos = hi + (pos - lo) % max(1, len(d) - hi)
                     CORRUPTION_MOVED[0] += 1
-                d[pos] ^= 0x5A
+                d[pos] ^= mask
                 # certainly undecryptable: everything in a message or sender-key message is covered by its MAC / signature; of a
                 # first message only the embedded message is (the key ids and the registration id around it are not, and are not
                 # even looked at when the session exists already)
@@ -651,7 +657,9 @@ def script_strategy(tier):
                    st.tuples(st.just("deliver"), sel).map(list), st.tuples(st.just("deliver"), st.just(0)).map(list),
                    st.tuples(st.just("dup"), sel).map(list), st.tuples(st.just("corrupt"), sel, sel).map(list),
                    st.tuples(st.just("corrupt"), sel, sel, st.one_of(st.sampled_from([0, 1, 2, 3, 5, 9, 34, 40, -1, -8, -9]), st.integers(0, 300),
-                                                                   st.tuples(st.just("cut"), st.sampled_from([1, 2, 5, 20, 60])).map(list))).map(list),
+                                                                   st.tuples(st.just("cut"), st.sampled_from([1, 2, 5, 20, 60])).map(list),
+                                                                   st.tuples(st.just("xor"), st.sampled_from([0, 0, 0, 1, 2, 40, -1]), st.integers(0, 254)).map(list),
+                                                                   st.tuples(st.just("xor"), st.just(0), st.sampled_from([0x0f, 0x1f, 0x2f, 0x30 - 1, 0x3f, 0x10 - 1, 0x20 - 1])).map(list))).map(list),
                    st.tuples(st.just("restart"), sel).map(list), st.tuples(st.just("loop"), sel).map(list),
                    st.just(["settle"]), st.just(["advance"]), st.just(["advance"]), st.just(["advance"]))
 
@@ -684,6 +692,12 @@ def _enum_basic():
         yield {"sub": "conversation", "accounts": 3, "registered": [True, True, True], "groups": [[0, 1, 2], [0, 1, 2]],
                "ops": [["send", 0, "g0", "text", o], ["settle"], ["send", 0, "g0", kind, o], ["advance"], ["deliver", 2], ["deliver", 3], ["deliver", 2],
                        ["corrupt", 0, 0], ["settle"], ["send", 1, "g0", kind, o], ["advance"], ["deliver", 1], ["deliver", 3], ["deliver", 2], ["corrupt", 0, 1]]}
+    # the version byte of a later message (msg / skmsg) damaged into every other version nibble
+    for mask in (0x0f, 0x1f, 0x2f, 0x3f, 0x7f, 0xef):
+        yield {"sub": "conversation", "accounts": 2, "registered": [True, True], "groups": [[0, 1], [0, 1]],
+               "ops": [["send", 0, 0, "text", o], ["settle"], ["send", 1, 0, "text", o], ["settle"], ["send", 0, 0, "text", o], ["advance"],
+                       ["corrupt", 0, 0, ["xor", 0, mask]], ["settle"], ["send", 0, "g0", "text", o], ["settle"], ["send", 0, "g0", "text", o], ["advance"],
+                       ["corrupt", 0, 0, ["xor", 0, mask]], ["settle"]]}
     yield {"sub": "conversation", "accounts": 3, "registered": [True, False, True], "groups": [[0, 1, 2], [1, 2]],
            "ops": [["send", 0, "g0", "text", o], ["send", 1, "g0", "text", o], ["send", 2, "g1", "location", o], ["send", 0, "g0", "text", o]]}
     yield {"sub": "conversation", "accounts": 2, "registered": [True, True], "groups": [[0, 1], [0, 1]],
